@@ -183,6 +183,7 @@ func runWS(c Case) []V {
 		pipe   *wsPipe
 		sent   []Msg
 		prior  int // bytes of earlier messages in this direction
+		dict   []byte // reference window of this direction
 		name   string
 		w, r   *websocket.Transport
 		framed uint64
@@ -217,11 +218,18 @@ func runWS(c Case) []V {
 			break
 		}
 		if !bytes.Equal(got, m) {
-			vs.add("peer-read-bytes:"+where+"/"+tag, "step %d %s message %s (index %d in its direction, %d bytes sent before it): %s", step, d.name, op.msg, idx, d.prior, diff(m, got))
+			w := where
+			if dictPrepended(d.dict, m, got) {
+				w, tag = "ws/"+c.Cfg.Mode, "dictionary-prepended-to-message"
+			}
+			vs.add("peer-read-bytes:"+w+"/"+tag, "step %d %s message %s (index %d in its direction, %d bytes sent before it): %s", step, d.name, op.msg, idx, d.prior, diff(m, got))
 			break
 		}
 		d.sent = append(d.sent, op.msg)
 		d.prior += len(m)
+		if ref.Takeover {
+			d.dict = trimWindow(d.dict, m, ref.Window)
+		}
 		// counters after every message: Tx of the writer and Rx of the reader equal the framed bytes
 		if tx := d.w.TxBytesCounterValue(); tx != d.framed {
 			vs.add("tx-counter:"+where, "step %d %s message %s: writer TxBytesCounterValue=%d, bytes framed so far=%d", step, d.name, op.msg, tx, d.framed)
@@ -276,7 +284,11 @@ func refDecodeFrames(vs *vset, where, dirName string, ref refMode, frames []wsFr
 				vs.add("wire-decodable:"+where+"/"+tag, "%s frame %d (message %s, %d frame bytes, dictionary %d bytes): reference decoder: %v", dirName, i, msgs[i], len(f.data), len(dict), err)
 				return
 			case !bytes.Equal(out, want):
-				vs.add("wire-decodable:"+where+"/"+tag, "%s frame %d (message %s, dictionary %d bytes): reference decoder output differs: %s", dirName, i, msgs[i], len(dict), diff(want, out))
+				w := where
+				if dictPrepended(dict, want, out) {
+					w, tag = "ws/ct", "dictionary-prepended-to-message"
+				}
+				vs.add("wire-decodable:"+w+"/"+tag, "%s frame %d (message %s, dictionary %d bytes): reference decoder output differs: %s", dirName, i, msgs[i], len(dict), diff(want, out))
 				return
 			case used != len(f.data):
 				vs.add("wire-exact-frame:"+where, "%s frame %d (message %s): DEFLATE stream uses %d of %d frame bytes", dirName, i, msgs[i], used, len(f.data))
@@ -287,6 +299,15 @@ func refDecodeFrames(vs *vset, where, dirName string, ref refMode, frames []wsFr
 		}
 		prior += len(want)
 	}
+}
+
+// dictPrepended recognises one specific corruption: the decoded message is the (at most 32 KiB of
+// the) dictionary followed by the message, i.e. the compressor emitted its preset dictionary as data.
+func dictPrepended(dict, want, got []byte) bool {
+	if len(dict) > 32768 {
+		dict = dict[len(dict)-32768:]
+	}
+	return len(dict) > 0 && len(got) == len(dict)+len(want) && bytes.Equal(got[:len(dict)], dict) && bytes.Equal(got[len(dict):], want)
 }
 
 var _ = fmt.Sprint
